@@ -174,6 +174,12 @@ func run(c *core.Ctx) {
 	}
 	gen(stringUnits, `"`, `"`, "", maxUnits)
 	gen(blockUnits, `"""`, `"""`, "", maxUnits)
+	// multi-line texts: lines made of letters and blanks, as block strings (raw line ends) and
+	// as quoted strings (escaped line ends), longer than the general payloads
+	lineLen := c.Pick(5, 6)
+	c.R.Bounds["multi_line_payload_units"] = lineLen
+	gen([]string{"a", " ", "\n", "\t"}, `"""`, `"""`, "", lineLen)
+	gen([]string{"a", " ", `\n`, `\t`}, `"`, `"`, "", lineLen)
 	c.R.Bounds["payloads"] = len(payloads)
 	for _, tpl := range templates {
 		slots := strings.Count(tpl, "%s")
